@@ -92,6 +92,11 @@ func installHooks() {
 		if d == nil || d.free {
 			return
 		}
+		if delta < 0 && d.hasBare {
+			// objects without Metrics: look at their leadership flag while the releasing goroutine is
+			// still inside its critical section
+			d.pollClaims(polledStack(leaderFrames(2, 9)))
+		}
 		g := goid()
 		heldMu.Lock()
 		held[g] += delta
@@ -110,6 +115,31 @@ func installHooks() {
 		}
 		d.yield(instanceID, site)
 	}
+}
+
+// polledStack: the call stack of a lock release at which a flag change was seen, reduced to the
+// function that made the change and its callers (the hook's own frame, the deferred closure of the
+// releasing function and nested releases of the disconnect handler's mutex are dropped), so that
+// it reads like the stacks the metrics observer records.
+func polledStack(s string) string {
+	fr := strings.Split(s, "<")
+	var out []string
+	for i, f := range fr {
+		if f == "verifHeld" {
+			continue
+		}
+		if len(out) == 0 && strings.HasPrefix(f, "dh.stop") {
+			continue
+		}
+		if i+1 < len(fr) && strings.HasPrefix(f, fr[i+1]+".func") && len(out) == 0 {
+			continue
+		}
+		out = append(out, f)
+		if len(out) == 4 {
+			break
+		}
+	}
+	return strings.Join(out, "<")
 }
 
 func (d *Driver) jitterDraw() uint64 {
@@ -310,6 +340,9 @@ func newDriver(p *Plan, keepLog bool) *Driver {
 	d.store = NewStore(p.TTL, p.Store.Dialect)
 	for i, c := range p.Insts {
 		d.insts = append(d.insts, &Inst{d: d, idx: i, cfg: c, nKind: map[string]int{}})
+		if c.NoMetrics && !p.Sched.Free {
+			d.hasBare = true
+		}
 	}
 	return d
 }
